@@ -143,8 +143,10 @@ End Client.
 
 (* =============================================================================================
    Broker connection.  Every public operation holds b.lock for its whole duration:
-     Open():   CAS opened 0->1; lock; go { dial; on success conn, responses = make(chan, MaxOpenRequests-1),
-               done = make(chan); go responseReceiver(); unlock }
+     Open():   CAS opened 0->1; lock; go { dial (failure: conn = nil, unlock);
+               with Net.SASL.Enable: authenticateViaSASL() on the new connection (handshake / auth round trips;
+               failure: conn.Close(), conn = nil, unlock — responses / done are NOT created);
+               responses = make(chan, MaxOpenRequests-1), done = make(chan); go responseReceiver(); unlock }
      send():   lock; if conn == nil { return ErrNotConnected }; write; b.responses <- promise; unlock
      Close():  lock; if conn == nil { return ErrNotConnected }; close(b.responses); <-b.done;
                conn.Close(); conn = nil; ...; unlock
@@ -153,11 +155,14 @@ End Client.
    Callers wait for their result in a select on the promise's two channels, so the hand-over never
    blocks.  Reads have a deadline (Net.ReadTimeout): a network wait always ends. *)
 Module Broker.
-  Record cfg := { cap : nat (* MaxOpenRequests - 1 *); bmax : nat (* Close calls the application makes *) }.
+  Record cfg := { cap : nat (* MaxOpenRequests - 1 *); bmax : nat (* Close calls the application makes *);
+                  sasl : bool (* Net.SASL.Enable *) }.
 
   Inductive lockpc :=
   | LFree
   | LDial            (* Open's goroutine is dialing, holding the lock *)
+  | LAuth            (* dialled (conn != nil), SASL handshake / authentication in progress, still holding the lock;
+                        responses / done do not exist yet and no receiver runs *)
   | LSend            (* send(): wrote the request, blocked on b.responses <- promise *)
   | LClose           (* Close(): closed b.responses, blocked on <-b.done *)
   | LCloseFin.       (* Close(): done received; conn.Close(), conn = nil *)
@@ -168,16 +173,19 @@ Module Broker.
     lk : lockpc;
     resp : chan;          (* b.responses (of the current connection) *)
     done : bool;          (* b.done closed *)
+    made : bool;          (* b.responses / b.done exist (non-nil): created by Open after dial and authentication,
+                             reset to nil by Close *)
     rc : rpc;
     ret : option nat;     (* result of a finished Close call not yet observed *)
     ncalls : nat;
     panic : bool }.
 
   Definition init (_ : cfg) : st :=
-    {| conn := false; lk := LFree; resp := ch0; done := false; rc := RNone; ret := None; ncalls := 0; panic := false |}.
+    {| conn := false; lk := LFree; resp := ch0; done := false; made := false; rc := RNone; ret := None; ncalls := 0; panic := false |}.
 
   Inductive act :=
   | AOpen | ADialOk | ADialFail
+  | AAuthOk | AAuthFail   (* the SASL step ends (a network wait always ends: read deadline) *)
   | ASendBegin            (* send(): lock taken, request written (conn != nil) *)
   | ASendEnq              (* b.responses <- promise : buffer slot available *)
   | ASendHand             (* b.responses <- promise : direct hand-off to the idle receiver *)
@@ -190,7 +198,9 @@ Module Broker.
   | ARet (r : nat).       (* application sees Close return with result r *)
 
   Definition upd (s : st) conn' lk' resp' done' rc' ret' nc' panic' : st :=
-    {| conn := conn'; lk := lk'; resp := resp'; done := done'; rc := rc'; ret := ret'; ncalls := nc'; panic := panic' |}.
+    {| conn := conn'; lk := lk'; resp := resp'; done := done'; made := made s; rc := rc'; ret := ret'; ncalls := nc'; panic := panic' |}.
+  Definition set_made (s : st) (m : bool) : st :=
+    {| conn := conn s; lk := lk s; resp := resp s; done := done s; made := m; rc := rc s; ret := ret s; ncalls := ncalls s; panic := panic s |}.
 
   Definition step (c : cfg) (s : st) (a : act) : option st :=
     match a with
@@ -198,8 +208,16 @@ Module Broker.
                | LFree, false => Some (upd s false LDial (resp s) (done s) (rc s) (ret s) (ncalls s) (panic s))
                | _, _ => None end
     | ADialOk => match lk s with
-                 | LDial => Some (upd s true LFree ch0 false RIdle (ret s) (ncalls s) (panic s))
+                 | LDial => if sasl c
+                            then Some (upd s true LAuth (resp s) (done s) (rc s) (ret s) (ncalls s) (panic s))
+                            else Some (set_made (upd s true LFree ch0 false RIdle (ret s) (ncalls s) (panic s)) true)
                  | _ => None end
+    | AAuthOk => match lk s with
+                 | LAuth => Some (set_made (upd s true LFree ch0 false RIdle (ret s) (ncalls s) (panic s)) true)
+                 | _ => None end
+    | AAuthFail => match lk s with
+                   | LAuth => Some (upd s false LFree (resp s) (done s) (rc s) (ret s) (ncalls s) (panic s))
+                   | _ => None end
     | ADialFail => match lk s with
                    | LDial => Some (upd s false LFree (resp s) (done s) (rc s) (ret s) (ncalls s) (panic s))
                    | _ => None end
@@ -246,7 +264,7 @@ Module Broker.
                                 else None
                     | _ => None end
     | ACloseFin => match lk s with
-                   | LCloseFin => Some (upd s false LFree (resp s) (done s) RNone (Some rNil) (ncalls s) (panic s))
+                   | LCloseFin => Some (set_made (upd s false LFree (resp s) (done s) RNone (Some rNil) (ncalls s) (panic s)) false)
                    | _ => None end
     | ARet r => match ret s with
                 | Some r' => if Nat.eqb r r'
